@@ -191,9 +191,20 @@ def check_engine(prop, tier, seed):
                'prim': (29 if tier == 'thorough' else 101),
                'sched': (5 if tier == 'thorough' else 7)}[engine]
     det_runs = {}
+    audit_msgs = []
     for v in variants:
-        det_runs[v] = V.determinism_audit(sims[v], engine, tier, seed,
-                                          os.path.join(outdir, 'det-' + v), det_mod)
+        # For the schedule engine a failed audit is first confronted with what
+        # the batch finds: a data race in the library makes executions differ
+        # (racy code is UB), and then the race is the thing to report. An audit
+        # failure that no gated violation explains stays a machinery fault.
+        n, msg = V.determinism_audit(sims[v], engine, tier, seed,
+                                     os.path.join(outdir, 'det-' + v), det_mod,
+                                     tolerate=True)
+        det_runs[v] = n
+        if msg:
+            if engine != 'sched':
+                raise V.MachineryFault(msg)
+            audit_msgs.append(msg)
     all_viol, all_known, summaries = [], {}, []
     for v in variants:
         sim = sims[v]
@@ -222,6 +233,9 @@ def check_engine(prop, tier, seed):
         all_viol += viol
         for k, n in known.items():
             all_known[k] = all_known.get(k, 0) + n
+    if audit_msgs and not [x for x in all_viol if x.get('cls') == 'data_race']:
+        raise V.MachineryFault(audit_msgs[0] + ' (and no data race was found that '
+                               'would explain it)')
     main = summaries[0]
     ei = ENGINE_INFO[engine]
     wall = max(sum(s['wall_s'] for s in summaries), 1e-9)
@@ -241,6 +255,7 @@ def check_engine(prop, tier, seed):
                      wall_s=round(s['wall_s'], 2), deaths=s.get('deaths', 0))
                 for s in summaries],
         determinism_audit_runs=det_runs,
+        determinism_audit_notes=audit_msgs,
         components=ei['components'],
         known_findings_hit=all_known,
         exhaustive=False,
